@@ -2,6 +2,7 @@
    Only the property theorems (closed by exact) and their assumptions. *)
 From GoSST Require Import Base.Bytes Struct.Heap SST.Merge SST.MergeFacts.
 From GoSST Require Import Fs.OrderFacts.
+From GoSST Require SST.TableReader SST.DamageTableFacts RecordIO.Format.
 From GoSSTGen Require Import FactsCode.
 Local Open Scope N_scope.
 
@@ -37,3 +38,13 @@ Theorem C11_merge_is_feed_disjoint :
 Proof. exact @merge_disjoint_union. Qed.
 Print Assumptions C11_merge_is_feed_disjoint.
 Print Assumptions C11_success_flag_after_close.
+
+(* the read of an input record fails - and is not answered with nil, which a merge would write as a tombstone - when
+   the index names a value offset at or behind the end of the data file (a data file that lost its tail), under every
+   reader option (until fix 3f24fb5 the real reader answered nil here; harness witness
+   corpus/C11_fixed_seek_iterator_cut_at_boundary.json) *)
+Theorem C11_lost_value_is_a_read_error :
+  forall (r : SST.TableReader.reader) (off crc : N) (skip : bool),
+  RecordIO.Format.lenN (SST.TableReader.r_data r) <= off -> exists e, SST.TableReader.get_value_at r off crc skip = Err e.
+Proof. exact SST.DamageTableFacts.offset_behind_data_is_error. Qed.
+Print Assumptions C11_lost_value_is_a_read_error.
